@@ -48,6 +48,8 @@ def build(L, cache=None):
         return typing.Optional[build(L[1])]
     if k == "arr":
         return getattr(jaxtyping, L[1])[np.ndarray, L[2]]
+    if k == "arrnest":  # Cat[Shaped[ndarray, inner], outer]: documented to mean Cat[ndarray, "outer inner"]
+        return getattr(jaxtyping, L[1])[jaxtyping.Shaped[np.ndarray, L[3]], L[2]]
     if k == "pytree":
         return jaxtyping.PyTree[build(L[1])]
     raise AssertionError(L)
@@ -92,6 +94,8 @@ def matches(x, L, s, v, flatten, label=None, nested_struct=False):
         if x is None:
             return True, s, v
         return matches(x, L[1], s, v, flatten, label)
+    if k == "arrnest":
+        return matches(x, ("arr", L[1], (L[2] + " " + L[3]).strip()), s, v, flatten, label, nested_struct)
     if k == "arr":
         if not isinstance(x, np.ndarray):
             return False, s, v
@@ -125,7 +129,7 @@ def matches(x, L, s, v, flatten, label=None, nested_struct=False):
 
 
 def has_array(L):
-    if L[0] == "arr":
+    if L[0] in ("arr", "arrnest"):
         return True
     if L[0] in ("tuple", "union", "pep604"):
         return any(has_array(x) for x in L[1])
@@ -148,5 +152,7 @@ def show(L):
         return f"Optional[{show(L[1])}]"
     if k == "arr":
         return f"{L[1]}[ndarray, {L[2]!r}]"
+    if k == "arrnest":
+        return f"{L[1]}[Shaped[ndarray, {L[3]!r}], {L[2]!r}]"
     if k == "pytree":
         return f"PyTree[{show(L[1])}]"
